@@ -30,6 +30,15 @@ C1_DEPS = [("rdepend", ""), ("rdepend", "!cat/d"), ("rdepend", "cat/d"), ("pdepe
 D_DEPS = [("rdepend", ""), ("rdepend", "!cat/c"), ("depend", "cat/b"), ("rdepend", "<cat/b-2")]
 INSTALLED = [[], ["cat/b-1"], ["cat/a-1", "cat/b-1"], ["cat/d-1"]]
 TARGETS = [["cat/a"], ["cat/a", "cat/d"], [">=cat/b-2"], ["cat/c", "cat/a"], ["cat/d:1"]]
+# slotted-library family (a library spread over slots, weak and strong blockers against its old versions)
+S_NEW = [{"rdepend": "!<app/lib-2"}, {"rdepend": "!!<app/lib-1.5"}, {"idepend": "!<app/lib-2"}, {"rdepend": "app/lib:2 !<app/lib-1.1"}]
+S_INSTALLED = [[("app/lib-1.0", {})], [("app/lib-1.0", {}), ("app/lib-3.0", {"slot": "2"})], [], [("app/lib-1.1", {}), ("app/lib-3.0", {"slot": "2"})]]
+S_TARGETS = [["app/meta"], ["app/new"], ["app/lib:2", "app/new"], ["app/tool"], ["app/tool", "app/new"], ["app/lib"]]
+# fallback family (a candidate version is refused after its dependencies were looked at; the next one must bring its own)
+F_BLOCKERS = ["!!>=c/x-2", "!>=c/x-2", ""]
+F_X1 = [("rdepend", "c/needed"), ("rdepend", ""), ("pdepend", "c/needed"), ("depend", "c/needed")]
+F_TARGETS = [["c/p", "c/x"], ["c/x", "c/p"], ["c/p", "c/y"], ["c/y", "c/p"]]
+F_INSTALLED = [[], ["c/x-2"], ["c/p-1"]]
 STRATEGIES = ["upgrade", "upgrade-no-verify-vdb", "min-install", "min-install-no-verify-vdb"]
 DEP_CLASSES = ("depend", "rdepend", "bdepend", "pdepend", "idepend")
 
@@ -64,23 +73,47 @@ def clauses(depset):
 class ResolveHarness(Harness):
     def setup(self, eng):
         ob = self.ob
-        inp = {"a2": ob["a2"], "b2": ob["b2"], "inst": eng.int("installed", 0, len(INSTALLED) - 1), "targets": eng.int("targets", 0, len(TARGETS) - 1), "strategy": eng.int("strategy", 0, len(STRATEGIES) - 1)}
-        inp["c1"] = eng.int("deps_of_c1", 0, len(C1_DEPS) - 1)
-        inp["d"] = eng.int("deps_of_d", 0, len(D_DEPS) - 1)
+        fam = ob.get("family", "abcd")
+        inp = {"strategy": eng.int("strategy", 0, len(STRATEGIES) - 1)}
+        if fam == "abcd":
+            inp.update({"a2": ob["a2"], "b2": ob["b2"], "inst": eng.int("installed", 0, len(INSTALLED) - 1), "targets": eng.int("targets", 0, len(TARGETS) - 1)})
+            inp["c1"] = eng.int("deps_of_c1", 0, len(C1_DEPS) - 1)
+            inp["d"] = eng.int("deps_of_d", 0, len(D_DEPS) - 1)
+        elif fam == "slotted":
+            inp.update({"new": ob["new"], "lib2slot": eng.int("slot_of_lib2", 0, 1), "inst": eng.int("installed", 0, len(S_INSTALLED) - 1), "targets": eng.int("targets", 0, len(S_TARGETS) - 1), "vdb_order": eng.bool("vdb_lists_lower_slot_first")})
+        else:
+            inp.update({"blocker": eng.int("blocker", 0, len(F_BLOCKERS) - 1), "x1dep": eng.int("deps_of_x1", 0, len(F_X1) - 1), "targets": eng.int("targets", 0, len(F_TARGETS) - 1), "inst": eng.int("installed", 0, len(F_INSTALLED) - 1)})
         return inp
+
+    def build(self, c):
+        fam = self.ob.get("family", "abcd")
+        dep = lambda menu, i: {menu[i][0]: menu[i][1]}
+        if fam == "abcd":
+            spec = {
+                "cat/a-1": {"rdepend": "cat/b"}, "cat/a-2": dep(A2_DEPS, c["a2"]), "cat/b-1": {}, "cat/b-2": dep(B2_DEPS, c["b2"]), "cat/c-1": dep(C1_DEPS, c["c1"]),
+                "cat/d-1": dep(D_DEPS, c["d"]), "cat/d-2": {"slot": "1"},
+            }
+            return spec, [(cpv, spec[cpv]) for cpv in INSTALLED[c["inst"]]], TARGETS[c["targets"]]
+        if fam == "slotted":
+            spec = {
+                "app/lib-1.1": {}, "app/lib-2.0": {"slot": "02"[c["lib2slot"]]}, "app/lib-3.0": {"slot": "2"}, "app/new-1": dict(S_NEW[c["new"]]), "app/old-1": {},
+                "app/meta-1": {"rdepend": "|| ( app/new app/old )"}, "app/tool-1": {"rdepend": "app/lib:2", "pdepend": ">=app/lib-1.1:0"},
+            }
+            inst = [(cpv, dict(kw)) for cpv, kw in S_INSTALLED[c["inst"]]]
+            if not c["vdb_order"]:
+                inst = list(reversed(inst))
+            return spec, inst, S_TARGETS[c["targets"]]
+        spec = {"c/p-1": {"rdepend": F_BLOCKERS[c["blocker"]]}, "c/x-2": {}, "c/x-1": dep(F_X1, c["x1dep"]), "c/needed-1": {}, "c/y-1": {"rdepend": "c/x"}}
+        return spec, [(cpv, spec.get(cpv, {})) for cpv in F_INSTALLED[c["inst"]]], F_TARGETS[c["targets"]]
 
     def body(self, inp):
         c = core.fix(inp) if core.ENG is not None else inp
         src, vdb = Repo(repo_id="src"), Repo(repo_id="vdb")
         vdb.livefs = True
-        dep = lambda menu, i: {menu[i][0]: menu[i][1]}
-        spec = {
-            "cat/a-1": {"rdepend": "cat/b"}, "cat/a-2": dep(A2_DEPS, c["a2"]), "cat/b-1": {}, "cat/b-2": dep(B2_DEPS, c["b2"]), "cat/c-1": dep(C1_DEPS, c["c1"]),
-            "cat/d-1": dep(D_DEPS, c["d"]), "cat/d-2": {"slot": "1"},
-        }
+        spec, inst, tgts = self.build(c)
         src.pkgs = [mk(src, cpv, **kw) for cpv, kw in spec.items()]
-        vdb.pkgs = [mk(vdb, cpv, **spec[cpv]) for cpv in INSTALLED[c["inst"]]]
-        targets = [atom(t) for t in TARGETS[c["targets"]]]
+        vdb.pkgs = [mk(vdb, cpv, **kw) for cpv, kw in inst]
+        targets = [atom(t) for t in tgts]
         strat = STRATEGIES[c["strategy"]]
         f = resolver.upgrade_resolver if strat.startswith("upgrade") else resolver.min_install_resolver
         r = f([vdb], [src], verify_vdb=not strat.endswith("no-verify-vdb"))
@@ -92,7 +125,7 @@ class ResolveHarness(Harness):
         finally:
             signal.alarm(0)
             signal.signal(signal.SIGALRM, old)
-        out = {"deps": {k: v for k, v in spec.items() if v}, "installed": INSTALLED[c["inst"]], "targets": TARGETS[c["targets"]], "strategy": strat, "success": not failed, "plan": [], "problems": []}
+        out = {"deps": {k: v for k, v in spec.items() if v}, "installed": [cpv for cpv, _ in inst], "targets": tgts, "strategy": strat, "success": not failed, "plan": [], "problems": []}
         if failed:
             return out
         final = {p.cpvstr: p for p in vdb.pkgs}
@@ -152,5 +185,7 @@ UNIVERSE = {}
 
 def obligations(tier, seed):
     obs = [{"oid": f"a-2: {A2_DEPS[i][0]}='{A2_DEPS[i][1]}'|b-2: {B2_DEPS[j][0]}='{B2_DEPS[j][1]}'", "a2": i, "b2": j, "max_paths": 100000, "max_s": 2400} for i in range(len(A2_DEPS)) for j in range(len(B2_DEPS))]
+    obs += [{"oid": f"slotted library|app/new: {S_NEW[i]}", "family": "slotted", "new": i, "max_paths": 100000, "max_s": 2400} for i in range(len(S_NEW))]
+    obs += [{"oid": "fallback to an older version", "family": "fallback", "max_paths": 100000, "max_s": 2400}]
     UNIVERSE[tier] = {"obligations": len(obs)}
     return obs
